@@ -24,6 +24,8 @@ From Verif Require Serial.Model.
 
 From Verif Require Codec.Model.
 
+From Verif Require Manager.Model.
+
 (* area id -> checker *)
 Definition dispatch (area : N) (v : val) : N :=
   match area with
@@ -45,6 +47,8 @@ Definition dispatch (area : N) (v : val) : N :=
   | 17%N => Serial.Model.check_val v
   | 10%N => Codec.Model.check_val10 v
   | 11%N => Codec.Model.check_val11 v
+  | 7%N => Manager.Model.check_val v
+  | 8%N => Manager.Model.check_val08 v
   | _ => 98%N
   end.
 
